@@ -346,4 +346,5 @@ add("C26", "shareRange start without the min", "nifty/cl/utilities.py", "    lo 
 add("C22", "shareRange end ignores the extra item", "nifty/cl/utilities.py", "    hi = lo + nbase + int(myshare < additional)", "    hi = lo + nbase + int(myshare <= additional)", "R22.9")
 add("C04", "constant operator returns no metric", "nifty/cl/operators/simplify_for_const.py", "            return x.new(self._output, jac, met)\n        return self._output\n\n    def __repr__(self):\n        tgt", "            return x.new(self._output, jac)\n        return self._output\n\n    def __repr__(self):\n        tgt", "R04.8")
 add("C04", "offset only on the metric-free return", "nifty/cl/operators/energy_operators.py", "        if self._offset != 0.:\n            res = res + self._offset\n        if not x.want_metric or self._ic_samp is None:\n            return res\n", "        if not x.want_metric or self._ic_samp is None:\n            return res if self._offset == 0. else res + self._offset\n", "R04.7")
+add("C04", "optional transformation dereferenced unguarded", "nifty/cl/operators/jax_operator.py", "        trafo = None\n        if self._trafo is not None:\n            _, trafo = self._trafo.simplify_for_constant_input(c_inp)\n", "        _, trafo = self._trafo.simplify_for_constant_input(c_inp)\n", "R04.9")
 VARIANTS = V
